@@ -382,9 +382,15 @@ class JsonHistoryFlusher(threading.Thread):
         try:
             with open(self.filename, newline="\n", encoding="utf-8") as f:
                 hist = xlj.LazyJSON(f).load()
-        except (JSONDecodeError, ValueError, OSError):
-            # File is corrupted or unreadable - start with empty history
+        except (JSONDecodeError, ValueError, FileNotFoundError):
+            # File is corrupted or missing - start with empty history
             hist = {"cmds": [], "sessionid": "", "ts": [time.time(), 0], "locked": True}
+        except OSError as err:
+            # A transient failure to open/read the file (EMFILE, EIO, EACCES
+            # ...) says nothing about its content: replacing it now would
+            # throw away every command saved earlier.
+            print(f"history: failed to read {self.filename!r}: {err}", file=sys.stderr)
+            return
         load_hist_len = len(hist["cmds"])
         hist["cmds"].extend(cmds)
         if self.at_exit:
